@@ -16,6 +16,17 @@ VERIF = os.path.dirname(os.path.dirname(os.path.abspath(__file__)))
 REPO = os.environ.get("VERIF_REPO", "/repo")
 GO = os.environ.get("VERIF_GO", "go1.26")
 NPROC = os.cpu_count() or 4
+# Alternate-repo mode (mutation trials, agents' scratch worktrees): VERIF_REPO=/tmp/wt bin/check Cxx quick
+# keeps everything mutable (work/, evidence/, a private copy of coq/) under work/alt-<hash>/ so that /verif's own
+# evidence and build products are untouched.
+ALT = os.path.realpath(REPO) != "/repo"
+WROOT = os.path.join(VERIF, "work", "alt-" + hashlib.sha1(os.path.realpath(REPO).encode()).hexdigest()[:8]) if ALT else os.path.join(VERIF, "work")
+COQ = os.path.join(WROOT, "coq") if ALT else os.path.join(VERIF, "coq")
+EVID = os.path.join(WROOT, "evidence") if ALT else os.path.join(VERIF, "evidence")
+os.makedirs(WROOT, exist_ok=True)
+if ALT:
+    subprocess.run(["rsync", "-a", "--exclude", "Makefile", "--exclude", "Makefile.conf", "--exclude", ".Makefile.d",
+                    os.path.join(VERIF, "coq") + "/", COQ + "/"], check=False)
 
 FORBIDDEN = re.compile(
     r"\b(Admitted|admit|Axiom|Axioms|Parameter|Parameters|Conjecture|Conjectures|Admit\s+Obligations)\b"
@@ -52,8 +63,7 @@ def sh(cmd, cwd=None, timeout=1800, env=None, stdin=None):
 
 class flock:
     def __init__(self, name):
-        os.makedirs(os.path.join(VERIF, "work"), exist_ok=True)
-        self.path = os.path.join(VERIF, "work", ".lock-" + name.replace("/", "_"))
+        self.path = os.path.join(WROOT, ".lock-" + name.replace("/", "_"))
     def __enter__(self):
         self.f = open(self.path, "w")
         fcntl.flock(self.f, fcntl.LOCK_EX)
@@ -78,7 +88,7 @@ def write_if_changed(path, content):
 # Coq
 # ----------------------------------------------------------------------------------------------
 def _coq_flags(fam):
-    d = os.path.join(VERIF, "coq", fam)
+    d = os.path.join(COQ, fam)
     flags = []
     for line in open(os.path.join(d, "_CoqProject")):
         line = line.strip()
@@ -92,7 +102,7 @@ def coq_make(fam, timeout=3000, targets=""):
     """Full .vo build of coq/<fam> (and coq/Base first) with coq_makefile; never -vos/-vok."""
     logs = []
     for f in (["Base"] if fam != "Base" else []) + [fam]:
-        d = os.path.join(VERIF, "coq", f)
+        d = os.path.join(COQ, f)
         with flock("coq-" + f):
             mk = os.path.join(d, "Makefile")
             cp = os.path.join(d, "_CoqProject")
@@ -113,7 +123,7 @@ _THM = re.compile(r"^\s*(Theorem|Lemma|Corollary|Example)\s+([A-Za-z_][A-Za-z0-9
 def coq_props(fam, pid, timeout=900):
     """Re-compile coq/<fam>/Props_<pid>.v (always, so Print Assumptions output is fresh).
     Returns dict: obligations [names], discharged [names], assumptions {name: [axioms]}, bad_axioms, ok, log."""
-    d = os.path.join(VERIF, "coq", fam)
+    d = os.path.join(COQ, fam)
     src = os.path.join(d, "Props_%s.v" % pid)
     text = open(src).read()
     names = [m.group(2) for m in _THM.finditer(text)]
@@ -155,7 +165,7 @@ def coq_props(fam, pid, timeout=900):
 def forbidden_scan(fams):
     hits = []
     for fam in fams:
-        for p in sorted(glob.glob(os.path.join(VERIF, "coq", fam, "**", "*.v"), recursive=True)):
+        for p in sorted(glob.glob(os.path.join(COQ, fam, "**", "*.v"), recursive=True)):
             txt = open(p, errors="replace").read()
             # strip comments (non-nested approximation good enough: nested handled by loop)
             prev = None
@@ -165,12 +175,12 @@ def forbidden_scan(fams):
             for i, line in enumerate(txt.split("\n"), 1):
                 m = FORBIDDEN.search(line)
                 if m:
-                    hits.append("%s:%d:%s" % (os.path.relpath(p, VERIF), i, m.group(0)))
+                    hits.append("%s:%d:%s" % (os.path.relpath(p, os.path.dirname(COQ)), i, m.group(0)))
     return hits
 
 
 def coqchk(fam, modules, timeout=3000):
-    d = os.path.join(VERIF, "coq", fam)
+    d = os.path.join(COQ, fam)
     flags = " ".join(_coq_flags(fam))
     with flock("coq-" + fam):
         rc, out = sh("coqchk -silent -o %s %s 2>&1" % (flags, " ".join(modules)), cwd=d, timeout=timeout)
@@ -180,9 +190,9 @@ def coqchk(fam, modules, timeout=3000):
 def extract_build(fam, drivers=None, exe="runner", timeout=900):
     """coqc coq/<fam>/Extract.v with cwd=work/<fam>/ml (Extraction writes *.ml there), then link
     runner/<fam>/<drivers> with ocamlfind ocamlopt.  Returns (ok, exe_path, log)."""
-    ml = os.path.join(VERIF, "work", fam, "ml")
+    ml = os.path.join(WROOT, fam, "ml")
     os.makedirs(ml, exist_ok=True)
-    src = os.path.join(VERIF, "coq", fam, "Extract.v")
+    src = os.path.join(COQ, fam, "Extract.v")
     with flock("ml-" + fam):
         for f in glob.glob(os.path.join(ml, "*")):
             if os.path.isfile(f):
@@ -212,7 +222,7 @@ def go_modfile():
     """harness/go.mod replaces ndnd => /repo; when VERIF_REPO is overridden write an alternate modfile."""
     h = os.path.join(VERIF, "harness")
     base = open(os.path.join(h, "go.mod")).read()
-    alt = os.path.join(VERIF, "work", "gomod-" + hashlib.sha1(REPO.encode()).hexdigest()[:8])
+    alt = os.path.join(WROOT, "gomod")
     os.makedirs(alt, exist_ok=True)
     txt = re.sub(r"=> /repo\b", "=> " + REPO, base)
     write_if_changed(os.path.join(alt, "go.mod"), txt)
@@ -295,7 +305,7 @@ class Run:
         self.tier = tier
         self.seed = int(os.environ.get("VERIF_SEED", "1") or 1)
         self.t0 = time.time()
-        self.work = os.path.join(VERIF, "work", pid)
+        self.work = os.path.join(WROOT, pid)
         os.makedirs(self.work, exist_ok=True)
         self.proof = None              # result of coq_props (+ build failures)
         self.proof_problems = []       # strings: theorem/correspondence that no longer checks
@@ -330,7 +340,7 @@ class Run:
             self.log("coq build FAILED:\n" + tail)
             # obligations are still counted from the Props file
             try:
-                text = open(os.path.join(VERIF, "coq", fam, "Props_%s.v" % pid)).read()
+                text = open(os.path.join(COQ, fam, "Props_%s.v" % pid)).read()
                 names = [m.group(2) for m in _THM.finditer(text)]
             except OSError:
                 names = []
@@ -435,8 +445,8 @@ class Run:
                   level=level, coverage=cov, assumptions=self.assumptions,
                   wall_s=round(time.time() - self.t0, 2), violations=violations,
                   known_findings=sorted(known.keys()), notes=self.notes, repo=REPO)
-        os.makedirs(os.path.join(VERIF, "evidence"), exist_ok=True)
-        json.dump(ev, open(os.path.join(VERIF, "evidence", self.pid + ".json"), "w"), indent=1, default=str)
+        os.makedirs(EVID, exist_ok=True)
+        json.dump(ev, open(os.path.join(EVID, self.pid + ".json"), "w"), indent=1, default=str)
         for l in lines:
             print(l, flush=True)
         self.log("done: evaluations=%d distinct_nontrivial=%d obligations=%d discharged=%d violations=%d wall=%.1fs" % (
